@@ -193,7 +193,6 @@ Proof.
   destruct p; cbn [ser_param app length]; lia.
 Qed.
 
-Definition caps_only (p : param) : Prop := exists cs, p = PCaps cs /\ Forall wf_cap cs.
 Definition param_caps (p : param) : list cap := match p with PCaps cs => cs | POther _ _ => [] end.
 
 Lemma read_opts_ser ps : forall fuel extra r,
